@@ -17,6 +17,9 @@
 -/
 import ClairModel.Proofs.Fetch
 
+-- every variable of a property statement is bound explicitly: a misspelt name is an error, not a new variable
+set_option autoImplicit false
+
 namespace ClairModel.Props.C09
 open ClairModel ClairModel.Bytes ClairModel.Codec ClairModel.Fetch
 
